@@ -201,6 +201,9 @@ def run_check(prop, tier, replay=None):
         st = threading.Thread(target=srt)
         st.start()
         drift = real_phase(run, prop, tier, wd, binary, scs, TR_INV[prop], MON_INV[prop], MON_PROPS[prop])
+        if prop == "C13" and replay is None:
+            import check_engine
+            drift += check_engine.runner_phase(run, tier, wd, binary, rng)
         st.join()
         if th:
             th.join()
